@@ -1051,9 +1051,15 @@ evhttp_handle_chunked_read(struct evhttp_request *req, struct evbuffer *buf)
 				return (DATA_CORRUPTED);
 			}
 			ntoread = evutil_strtoll(p, &endp, 16);
-			error = (*p == '\0' ||
-			    (*endp != '\0' && *endp != ' ') ||
-			    ntoread < 0);
+			/* chunk-size [ chunk-ext ]: an extension starts with ';'
+			 * (after optional whitespace) and a recipient MUST ignore
+			 * the ones it does not know (RFC 9112 7.1.1); anything
+			 * else after the size is an error. */
+			error = (endp == p || ntoread < 0 || ntoread == EV_INT64_MAX);
+			while (*endp == ' ' || *endp == '\t')
+				++endp;
+			if (*endp != '\0' && *endp != ';')
+				error = 1;
 			mm_free(p);
 			if (error) {
 				/* could not get chunk size */
